@@ -517,6 +517,8 @@ def run(ctx: common.Ctx):
                         "pre_tagged": tagger is not None})
     from . import c05_idempotence
     c05_idempotence.check_idempotence(ctx, T, fingerprint)
+    from . import c05_dup_edges
+    c05_dup_edges.check_duplicates_on_every_edge(ctx, T)
     ctx.note_batch("transformations-vs-reference", cases, dis, exhaustive=False, programs=N, scenarios=len(scen), applications=per,
                    pipelines=pipelines, not_supported=unsupported)
     # verified/structural checkers of the Lean heap model on the REAL inputs and results
